@@ -703,6 +703,28 @@ def fingerprint(fd: ast.AST) -> str:
             node.annotation = ast.Name(id="_", ctx=ast.Load())
             return node
 
+        def visit_Global(self, node):  # type: ignore
+            node.names = ["_"] * len(node.names)
+            return node
+
+        def visit_Nonlocal(self, node):  # type: ignore
+            node.names = ["_"] * len(node.names)
+            return node
+
+        def visit_ExceptHandler(self, node):  # type: ignore
+            self.generic_visit(node)
+            node.name = "_" if node.name else None
+            return node
+
+        def visit_alias(self, node):  # type: ignore
+            node.name, node.asname = "_", None
+            return node
+
+        def visit_ImportFrom(self, node):  # type: ignore
+            self.generic_visit(node)
+            node.module = "_"
+            return node
+
         def visit_Constant(self, node):  # type: ignore
             # text of messages may name the function: only the kind of constant counts
             return ast.copy_location(ast.Constant(value=type(node.value).__name__), node)
